@@ -42,6 +42,7 @@ def errors_r3(sn):
             if not m:
                 break
             cp = match_close(mask, m.end() - 1)
+            rules.guard_dropped(sn, re.sub(r'\b(switch_lang|format|fn_name_full|fn_name|line)!', 'M', sn.text[m.end():cp]), 'a lexer error constructor')
             sn.replace_range('R3', m.start(), cp + 1, 'ext_lex_error()', "%s..) -> ext_lex_error()" % pat)
 
 
